@@ -1,0 +1,3 @@
+// Package diexport lets verification tooling outside this module start an
+// instance through the real dependency-injection container ("verif" tag only).
+package diexport
